@@ -56,11 +56,24 @@ def main():
         sys.exit(0 if ok else 1)
     try:
         mod.check(run)
-    except Exception:
-        traceback.print_exc()
-        run.close()
-        print(f"BROKEN-CHECK property={pid}: harness exception")
-        sys.exit(2)
+    except Exception as exc:
+        # an exception raised inside the library on a request the check considers valid is a violation of the
+        # property (the function does not return what it must); an exception of the harness itself is a broken check
+        tb = traceback.extract_tb(exc.__traceback__)
+        repo_frames = [f for f in tb if os.path.abspath(f.filename).startswith(os.path.abspath(core.REPO) + os.sep)]
+        if repo_frames and os.path.abspath(tb[-1].filename).startswith((os.path.abspath(core.REPO) + os.sep, os.path.dirname(os.__file__)))  \
+                or (repo_frames and "site-packages" in tb[-1].filename):
+            f = repo_frames[-1]
+            run.violation(f"the library raised {type(exc).__name__}: {exc} at {os.path.relpath(f.filename, core.REPO)}:{f.lineno} on a request the check "
+                          "considers valid",
+                          {"case": "library-exception", "exception": type(exc).__name__, "message": str(exc)[:500],
+                           "traceback": traceback.format_exc()[-3000:], "last_case": run.last_case,
+                           "signature": {"kind": "library-exception"}})
+        else:
+            traceback.print_exc()
+            run.close()
+            print(f"BROKEN-CHECK property={pid}: harness exception")
+            sys.exit(2)
     finally:
         run.close()
 
